@@ -173,3 +173,103 @@ func splitAdd(s string) (string, string) {
 	}
 	return f, strings.Join(parts[1:], ",")
 }
+
+var vernacularKW = []string{"Definition ", "Theorem ", "Proof.", "Hint ", "Notation ", "From ", "Section ", "End ", "Context ", "Local ", "Fixpoint ", "Lemma "}
+
+func startsVernacular(s string) string {
+	for _, k := range vernacularKW {
+		if strings.HasPrefix(s, k) {
+			return strings.TrimSpace(strings.TrimSuffix(k, "."))
+		}
+	}
+	return ""
+}
+
+// c05Sentences (R05i): the declaration printers emit whole vernacular sentences.
+func c05Sentences(p *Prog, r *Report) {
+	r.Rule("R05i", "vernacular sentences: in every CoqDecl method, a constant template that begins with a vernacular keyword ends with the sentence terminator `.` or with an opener of the term that follows (`:=`, `[`); the last text written on every returning path ends with `.`; a `Theorem` template is directly followed by a `Proof.` template and a `Proof.` template is directly preceded by a `Theorem` template (the typing lemmas added by -typecheck are complete sentences after the definition)", 5)
+	keep := map[*ssa.Function]bool{}
+	for _, g := range p.FuncsIn(coqPkg) {
+		if rc := g.Signature.Recv(); rc != nil && strings.HasSuffix(rc.Type().String(), ".buffer") {
+			keep[g] = true
+		}
+	}
+	for _, f := range p.FuncsIn(coqPkg) {
+		if f.Name() != "CoqDecl" || f.Signature.Recv() == nil || len(f.Blocks) == 0 {
+			continue
+		}
+		ips, ok := p.ipathsKeeping(f, keep)
+		if !ok {
+			r.Unknown("R05i", FuncName(f), f.Pos(), "the abstract paths could not be enumerated")
+			continue
+		}
+		r.Func(FuncName(f))
+		bad := ""
+		nTemplates := 0
+		for _, ip := range ips {
+			if ip.Exit != "return" {
+				continue
+			}
+			type piece struct {
+				text  string // constant template, or "" when the text is not a constant
+				tail  string // constant suffix of a concatenation
+				known bool
+			}
+			var pieces []piece
+			for _, e := range ip.Events {
+				if !strings.Contains(e.Callee, ".buffer).") || len(e.Args) < 2 {
+					continue
+				}
+				name := e.Callee[strings.LastIndex(e.Callee, ".")+1:]
+				if name != "Add" && name != "AddLine" {
+					continue
+				}
+				a := e.Args[1]
+				if t, err := strconv.Unquote(a); err == nil {
+					pieces = append(pieces, piece{text: t, tail: t, known: true})
+					continue
+				}
+				// (x + "."): constant suffix
+				pc := piece{}
+				if strings.HasSuffix(a, ")") {
+					if i := strings.LastIndex(a, " + "); i >= 0 {
+						if t, err := strconv.Unquote(a[i+3 : len(a)-1]); err == nil {
+							pc.tail = t
+						}
+					}
+				}
+				pieces = append(pieces, pc)
+			}
+			for i, pc := range pieces {
+				if !pc.known {
+					continue
+				}
+				kw := startsVernacular(pc.text)
+				if kw == "" {
+					continue
+				}
+				nTemplates++
+				t := strings.TrimRight(pc.text, " \n")
+				if !(strings.HasSuffix(t, ".") || strings.HasSuffix(t, ":=") || strings.HasSuffix(t, "[")) {
+					bad = fmt.Sprintf("the %s template %q ends neither a sentence nor opens a term", kw, pc.text)
+				}
+				if kw == "Theorem" && !(i+1 < len(pieces) && startsVernacular(pieces[i+1].text) == "Proof") {
+					bad = fmt.Sprintf("the Theorem template %q is not followed by its proof on the path %s", pc.text, ip.Trace)
+				}
+				if kw == "Proof" && !(i > 0 && startsVernacular(pieces[i-1].text) == "Theorem") {
+					bad = fmt.Sprintf("a Proof template without the Theorem before it on the path %s", ip.Trace)
+				}
+			}
+			if len(pieces) > 0 {
+				last := pieces[len(pieces)-1]
+				if !strings.HasSuffix(strings.TrimRight(last.tail, " \n"), ".") {
+					bad = fmt.Sprintf("the last text written on the path %s does not end with `.` (%q)", ip.Trace, last.tail)
+				}
+			}
+		}
+		if nTemplates == 0 {
+			continue // a delegate or a comment printer
+		}
+		r.Check("R05i", FuncName(f)+" emits whole sentences", f.Pos(), bad == "", bad)
+	}
+}
